@@ -38,26 +38,35 @@ ScriptClass::ScriptClass(ScriptMaster& director)
 
 ScriptClass::~ScriptClass()
 {
-    if (m_Script == NULL)
+    const ProgramScript* const script = m_Script;
+    if (script == NULL)
     {
         //ScriptError("Attempting to delete dead class.");
         return;
     }
 
+    // From here on the class is dying. Killing its threads can empty its own notify list
+    // (a thread of this class waiting on the class: `group waittill`), which calls StoppedNotify():
+    // it must not delete the class a second time.
+    m_Script = NULL;
+
     LL::SafeRemoveRoot<ScriptClass*, &ScriptClass::Next, &ScriptClass::Prev>(headScript, this);
 
     KillThreads();
 
-    if (!m_Script->Filename())
+    if (!script->Filename())
     {
         // This is a temporary gamescript created for this script class, so delete it
-        delete m_Script;
+        delete script;
     }
 }
 
 void ScriptClass::StoppedNotify()
 {
-    delete this;
+    if (m_Script)
+    {
+        delete this;
+    }
 }
 
 void* ScriptClass::operator new(size_t)
